@@ -275,6 +275,21 @@ fn ladder_cases(with_mkdir: bool, over: bool) -> Vec<(TreeSpec, Op)> {
             mode: 0o777,
         });
     }
+    // a link body of the maximal length (PATH_MAX - 1 = 4095 bytes) and one byte less
+    for len in [4095usize, 4094] {
+        let mut body = "./".repeat((len - 1) / 2);
+        if body.len() + 1 < len {
+            body.push('/');
+        }
+        body.push('f');
+        assert_eq!(body.len(), len);
+        let mut spec = TreeSpec::default();
+        spec.entries.push(tree::Entry { path: b"f".to_vec(), kind: tree::Kind::File, mode: 0o644 });
+        spec.entries.push(tree::Entry { path: b"max".to_vec(), kind: tree::Kind::Link(body.into_bytes()), mode: 0o777 });
+        out.push((spec.clone(), Op::Readlink { path: b"max".to_vec() }));
+        out.push((spec.clone(), Op::Resolve { path: b"max".to_vec(), nofollow: false }));
+        out.push((spec, Op::OpenSubpath { path: b"max".to_vec(), flags: libc::O_RDONLY }));
+    }
     let p40 = format!("{}t/f", "a0/".repeat(8));
     out.push((spec.clone(), Op::Resolve { path: p40.clone().into_bytes(), nofollow: false }));
     out.push((spec.clone(), Op::Readlink { path: format!("{}a0", "a0/".repeat(7)).into_bytes() }));
